@@ -775,7 +775,10 @@ def mpi_atan2(y, x, prec):
     # Upper half-plane
     elif mpf_ge(ya, fzero):
         b = mpf_outward(mpf_atan2, (ya, xa), prec, round_ceiling)
-        if mpf_le(xb, fzero):
+        if ya == fzero and xb == fzero:
+            # the corner is the origin, where atan2 is 0
+            a = fzero
+        elif mpf_le(xb, fzero):
             a = mpf_outward(mpf_atan2, (yb, xb), prec, round_floor)
         else:
             a = mpf_outward(mpf_atan2, (ya, xb), prec, round_floor)
